@@ -16,11 +16,14 @@ class Hosts:
         self._dj_apply = dj_apply
         self._sa_apply = sa_apply
         self._sa_core = apply_odata_core
+        from .. import c20
+        self._canon_exc = c20.canon_exc
 
     def call(self, kind, text):
         """Call the shorthand like an application would.  What it returns is not judged
-        here (C20 compares what the shorthand's internal parse produced, which the
-        scheduler observes); errors of the visitor stage are swallowed."""
+        (C20 compares the AST the shorthand handed to its visitor, which the scheduler
+        observes); an exception is handed back for the case that the shorthand never
+        reached its visitor."""
         if kind not in ("sa_core", "sa_orm", "django"):
             raise KeyError(kind)
         try:
@@ -30,9 +33,9 @@ class Hosts:
                 self._sa_apply(self._select(self._sa.Post), text)
             else:
                 self._dj_apply(self._dj.Post.objects.all(), text)
-        except Exception:
-            pass
-        return None, None
+        except Exception as e:
+            return self._canon_exc(e), None
+        return ("ok", "shorthand returned"), None
 
 
 def build():
